@@ -658,11 +658,18 @@ class BasePlaceholderManager(MpfController):
         if hasattr(ast, "Constant"):
             self._eval_methods[ast.Constant] = self._eval_constant
 
+    def _eval_after(self, subscriptions, node, variables, subscribe):
+        """Evaluate node. If that fails the error also carries the subscriptions of what was evaluated before it."""
+        try:
+            return self._eval(node, variables, subscribe)
+        except TemplateEvalError as e:
+            raise TemplateEvalError(subscriptions + e.subscriptions)
+
     def _eval_tuple(self, node, variables, subscribe):
         values = []
         subscriptions = []
         for element in node.elts:
-            value, subscription = self._eval(element, variables, subscribe)
+            value, subscription = self._eval_after(subscriptions, element, variables, subscribe)
             values.append(value)
             subscriptions += subscription
         return tuple(values), subscriptions
@@ -695,15 +702,15 @@ class BasePlaceholderManager(MpfController):
     def _eval_if(self, node, variables, subscribe):
         value, subscription = self._eval(node.test, variables, subscribe)
         if value:
-            ret_value, ret_subscription = self._eval(node.body, variables, subscribe)
+            ret_value, ret_subscription = self._eval_after(subscription, node.body, variables, subscribe)
             return ret_value, subscription + ret_subscription
 
-        ret_value, ret_subscription = self._eval(node.orelse, variables, subscribe)
+        ret_value, ret_subscription = self._eval_after(subscription, node.orelse, variables, subscribe)
         return ret_value, subscription + ret_subscription
 
     def _eval_bin_op(self, node, variables, subscribe):
         left_value, left_subscription = self._eval(node.left, variables, subscribe)
-        right_value, right_subscription = self._eval(node.right, variables, subscribe)
+        right_value, right_subscription = self._eval_after(left_subscription, node.right, variables, subscribe)
         try:
             ret_value = OPERATORS[type(node.op)](left_value, right_value)
         except TypeError:
@@ -718,7 +725,7 @@ class BasePlaceholderManager(MpfController):
         if len(node.ops) > 1:
             raise AssertionError("Only single comparisons are supported.")
         left_value, left_subscription = self._eval(node.left, variables, subscribe)
-        right_value, right_subscription = self._eval(node.comparators[0], variables, subscribe)
+        right_value, right_subscription = self._eval_after(left_subscription, node.comparators[0], variables, subscribe)
         try:
             return COMPARISONS[type(node.ops[0])](left_value, right_value), left_subscription + right_subscription
         except TypeError:
@@ -727,7 +734,7 @@ class BasePlaceholderManager(MpfController):
     def _eval_bool_op(self, node, variables, subscribe):
         result, subscription = self._eval(node.values[0], variables, subscribe)
         for i in range(1, len(node.values)):
-            value, new_subscription = self._eval(node.values[i], variables, subscribe)
+            value, new_subscription = self._eval_after(subscription, node.values[i], variables, subscribe)
             subscription += new_subscription
             try:
                 result = BOOL_OPERATORS[type(node.op)](result, value)
